@@ -589,7 +589,11 @@ def unit_props(uname):
     props = {'C10'}
     if sub is None:
         return {'C%02d' % i for i in range(1, 21)}
-    for f in glob.glob(os.path.join(ROOT, 'contracts', sub, '*.vspec')):
+    files = glob.glob(os.path.join(ROOT, 'contracts', sub, '*.vspec'))
+    if sub in ('wrappers', 'ring'):
+        # the wrapper units verify the built-in primitives against the TRAIT contracts, which live in the shared files
+        files += [os.path.join(ROOT, 'contracts', '02_types.vspec'), os.path.join(ROOT, 'contracts', '09_resolvers.vspec')]
+    for f in files:
         for l in open(f):
             if l.startswith('props ') or l.startswith('#: ') or l.startswith('//# props'):
                 props.update(re.findall(r'C\d\d', l))
